@@ -98,11 +98,16 @@ def _soln(s):
     return [np.asarray(s.soln_decn), np.asarray(s.soln_obj)]
 
 
-def _mate(proto, npar):
+def _mate(proto, npar, via_setter=False):
     def fn(env, rng):
         cls = getattr(importlib.import_module("pybrops.breed.prot.mate." + proto), proto)
         xc = np.array([[(i + j) % env.n for j in range(npar)] for i in range(3)], dtype="int64")
-        out = cls(progeny_counter=0, family_counter=0, rng=rng).mate(env.pg, xc, 1, 2, nself=1)
+        if via_setter:
+            # the generator is assigned through the public rng property AFTER construction (the object was built on another one)
+            prot = cls(progeny_counter=0, family_counter=0, rng=np.random.default_rng(12345)); prot.rng = rng
+        else:
+            prot = cls(progeny_counter=0, family_counter=0, rng=rng)
+        out = prot.mate(env.pg, xc, 1, 2, nself=1)
         return [np.asarray(out.mat), np.asarray(out.taxa), np.asarray(out.taxa_grp)]
     return fn
 
@@ -141,6 +146,20 @@ def _sampling(name):
             a = np.arange(12).reshape(3, 4); S.axis_shuffle(a, 0, rng=rng); return a
         a = np.array([[0, 0], [1, 1], [2, 2], [0, 1]]); S.outcross_shuffle(a, rng=rng); return a
     return fn
+
+
+def _pheno_set(env, rng):
+    """the protocol's generator is assigned through the rng property after construction (built with the default, or with another one)"""
+    from pybrops.breed.prot.pt.G_E_Phenotyping import G_E_Phenotyping
+    prot = G_E_Phenotyping(env.gm, nenv=2, nrep=2, var_env=1.0, var_rep=0.5, var_err=2.0) if rng is not None else \
+        G_E_Phenotyping(env.gm, nenv=2, nrep=2, var_env=1.0, var_rep=0.5, var_err=2.0, rng=np.random.default_rng(777))
+    prot.rng = rng
+    return prot.phenotype(env.pg)
+
+
+def _climb_set(env, rng):
+    alg = _algo("SteepestDescentSubsetHillClimber", np.random.default_rng(4242)); alg.rng = rng
+    return _soln(alg.minimize(_quad()))
 
 
 def _pheno(env, rng):
@@ -313,6 +332,10 @@ OPS = {
     "mate_4w": ("lib", _mate("FourWayCross", 4), True),
     "mate_4wdh": ("lib", _mate("FourWayDHCross", 4), True),
     "phenotype": ("lib", _pheno, True),
+    "phenotype_rng_assigned_later": ("lib", _pheno_set, True),
+    "mate_2w_rng_assigned_later": ("lib", _mate("TwoWayCross", 2, True), True),
+    "mate_3wdh_rng_assigned_later": ("lib", _mate("ThreeWayDHCross", 3, True), True),
+    "hillclimb_rng_assigned_later": ("lib", _climb_set, True),
     "xcfg_subset": ("lib", _xcfg("Subset"), True),
     "xcfg_integer": ("lib", _xcfg("Integer"), True),
     "xcfg_binary": ("lib", _xcfg("Binary"), True),
